@@ -158,6 +158,43 @@ def check(pid, tier, seed):
                     continue
             kept.append(f)
         failures = kept
+    # ---- bounded stand-in for units the verifier could not ingest -------------------------------------------------
+    # When a repository change takes a function out of the fragment Verus ingests (lost anchor, unsupported construct),
+    # the unit is UNDECIDED.  The prepared scenario witnesses paired with that unit's obligations (concrete call sequences
+    # on the real objects; each passes on the unchanged tree) are then run on the real code as a BOUNDED stand-in: one that
+    # fails there is a concrete failing input for the clause it is paired with and is reported as a violation (labelled
+    # bounded-scenario, never counted as proved); if all pass the unit stays undecided (exit 2).
+    und_units = [u for u in units if results[u].status == "undecided"]
+    scenario_runs = []
+    if und_units and not failures and P.get("kani"):
+        from . import kani as _k
+        for g in P["kani"]:
+            hs = [h for h in _k.parse_harnesses(g["unit"]) if h["kind"] == "witness" and pid in h["props"]
+                  and any(pp.split(".")[0] in und_units for pp in h["pair"])]
+            if not hs:
+                continue
+            try:
+                with _k.Scratch([g]) as sc:
+                    for h in hs:
+                        h["crate"] = g.get("crate", "elvis-core")
+                        h["features"] = h["features"] or g.get("features", "")
+                        failed, out = _k.replay_on_real_code(sc, h, "")
+                        scenario_runs.append({"harness": h["harness"], "unit": h["unit"], "failed_on_real_code": failed})
+                        if failed:
+                            ob = [pp for pp in h["pair"] if pp.split(".")[0] in und_units][0]
+                            failures.append({"obligation": ob, "props": [pid], "backend": "bounded-scenario", "unit": ob.split(".")[0],
+                                             "message": "unit %s is outside the verifier's reach after this change (%s); BOUNDED stand-in: scenario witness %s (units/%s/kani.rs), which passes on the unchanged tree, fails on the real code"
+                                                        % (ob.split(".")[0], results[ob.split(".")[0]].reason[:160], h["harness"], h["unit"]),
+                                             "repo_loc": "", "clause": "bounded scenario paired with " + ",".join(h["pair"]),
+                                             "rendered": out[-3000:], "replayed": True,
+                                             "scenario": {"check": "witness", "description": "prepared call sequence %s fails on the real code" % h["harness"], "hex": "",
+                                                          "replay_output": out[-3000:], "replay_failed_on_real_code": True,
+                                                          "harness": {k: h[k] for k in ("unit", "harness", "crate", "features")}}})
+            except FileNotFoundError:
+                pass
+        # one report per obligation
+        seen = set()
+        failures = [f for f in failures if not (f["obligation"] in seen or seen.add(f["obligation"]))]
     violations = []
     known_hits = []
     for f in failures:
@@ -215,6 +252,7 @@ def check(pid, tier, seed):
             "unexplored_thorough_harnesses": (kres or {}).get("unexplored", []),
             "known_findings_hit": [f["obligation"] for f, _ in known_hits],
             "undecided": undecided,
+            "bounded_scenarios_run_for_undecided_units": scenario_runs,
             "vacuity_pass": vac,
             "explanation": P.get("explanation", ""),
         },
